@@ -18,6 +18,9 @@ fn num_spec(ty: NumTy, v: i128) -> CountSpec {
         CountSpec::Float(format!("{v}.0"))
     } else if v < 0 {
         CountSpec::Int(v as i64)
+    } else if v > i64::MAX as i128 && build_format() == Format::Json5 {
+        // the JSON5 front-end reads integers as i64: larger bounds are written in their string form
+        CountSpec::Str(format!("{v}"))
     } else {
         CountSpec::UInt(v as u64)
     }
